@@ -395,3 +395,36 @@ pub fn c05_indexopt_clear_spilled32() {
 pub fn c05_indexopt_clear_spilled64() {
     indexopt_clear_after_prefix(&[0, 3, 1 << 40]);
 }
+
+// @h prop=C05 tier=quick kind=proof inst="IndexOptimized iterator: next() x a, then nth(k), then the rest" bounds="values 0,1,2 (stride) then 7, 3 (spilled; concrete values); a <= 3 steps, k <= 4, both symbolic" desc="jumping with nth (skip / step_by) from inside the strided prefix to the spilled part and beyond: nth(k) is element a+k or None, the remainder follows in order, nothing is replayed"
+#[cfg_attr(kani, kani::proof, kani::unwind(8))]
+pub fn c05_indexopt_iter_jumps() {
+    let mut c = IndexOptimized::<Vec<u32>, Vec<u64>>::default();
+    let m = [0usize, 1, 2, 7, 3];
+    let mut j = 0;
+    while j < 5 {
+        c.push(m[j]);
+        j += 1;
+    }
+    let a = sym::usize();
+    let k = sym::usize();
+    sym::assume(a <= 3 && k <= 4);
+    let mut it = c.iter();
+    let mut j = 0;
+    while j < a {
+        assert!(it.next() == Some(m[j]), "C05: iter yields a different element than was pushed");
+        j += 1;
+    }
+    let got = it.nth(k);
+    let mut pos = a + k;
+    assert!(got == if pos < 5 { Some(m[pos]) } else { None }, "C05: iter.nth(k) is not the element k positions ahead / None");
+    pos += 1;
+    while pos < 5 {
+        assert!(it.next() == Some(m[pos]), "C05: after nth the iterator replays or skips elements");
+        pos += 1;
+    }
+    assert!(it.next().is_none(), "C05: after nth the iterator yields too many elements");
+    drop(it);
+    cover!(true, "end reached");
+    sym::forget(c);
+}
